@@ -383,6 +383,7 @@ type fullOutcome struct {
 	panicS          string
 	cancelledAtRet  map[int]bool
 	btRet           string
+	why             string // classifyRunError of Run's error
 }
 
 // realFullStart runs NewRunner + Run with the real migrations on (a copy of) d.
@@ -514,7 +515,7 @@ func realFullStart(d *memory.Database, spec fullSpec, sp fullStart) fullOutcome 
 	out.open = "ok"
 	var runErr error
 	if hungOnce.Load() {
-		out.hang = true
+		out.hang, out.after = true, d // the database as it was (callers must not dereference a nil image)
 		return out
 	}
 	finished := store.runWatched(8*time.Second, 180*time.Second, func() {
@@ -525,7 +526,7 @@ func realFullStart(d *memory.Database, spec fullSpec, sp fullStart) fullOutcome 
 		}
 	})
 	if !finished {
-		out.hang = true
+		out.hang, out.after = true, d
 		hungOnce.Store(true)
 		return out
 	}
@@ -533,6 +534,7 @@ func realFullStart(d *memory.Database, spec fullSpec, sp fullStart) fullOutcome 
 	if runErr != nil {
 		out.result = "err"
 	}
+	out.why = classifyRunError(runErr)
 	fr.mu.Lock()
 	defer fr.mu.Unlock()
 	out.commits = store.commits
@@ -857,7 +859,12 @@ func (h *harness) compareFullStart(hist fullHistory, si int, o fullOutcome) {
 			h.res.Hit("full-start:token-read-failed-modelled")
 		}
 		h.glueTie(hist, si, o)
-		// results are compared as ok / not ok; a crashed start only by its disk
+		// results are compared as ok / not ok plus the failing step and the migration the error names
+		// (`why=`); a crashed start only by its disk
+		why := ""
+		if i := strings.Index(ans, " why="); i >= 0 {
+			why = ans[i:]
+		}
 		if i := strings.Index(ans, " calls="); i >= 0 {
 			ans = ans[:i]
 		}
@@ -867,7 +874,9 @@ func (h *harness) compareFullStart(hist fullHistory, si int, o fullOutcome) {
 			}
 			want = "crashed " + disk
 		} else {
-			want = o.result + " " + disk
+			want = o.result + " " + disk + " why=" + o.why
+			ans += why
+			h.res.Hit("full-why:" + strings.SplitN(o.why, "@", 2)[0])
 		}
 	}
 	if ans != want {
@@ -1473,6 +1482,9 @@ func classifyUpgradeFailure(o fullOutcome, retentionChanged, disturbedBefore boo
 // ---- history pruner: the cutoff decision against its Lean model ---------------------------------
 
 func oldestRetained(d *memory.Database) uint64 {
+	if d == nil {
+		return 0
+	}
 	o, err := pruner.OldestRetainedBlock(d)
 	if err != nil {
 		return 0
